@@ -263,6 +263,10 @@ func (incr *incremental[Obj]) commitStatus() (numErrors int) {
 			// the changes.
 			currentStatus := incr.config.GetObjectStatus(current)
 			if currentStatus.Kind == StatusKindPending && currentStatus.ID == result.id {
+				// A retry must start from the changed object and not from the
+				// one originally reconciled, as otherwise its status commit would
+				// overwrite the other changes.
+				result.original = current
 				current = incr.config.CloneObject(current)
 				current = incr.config.SetObjectStatus(current, status)
 				_, _, err = incr.table.Insert(wtxn, current)
